@@ -90,6 +90,10 @@ func c10Prop(c *sim.Case) {
 	}
 	resolving := false // set while a write first settles an "either" state through a real observation
 	read := func(what string) {
+		if m.exists && !m.hasTok && !m.hasAuth {
+			touch(what) // the session holds nothing of either kind (its login state was cleared): every read is a use only
+			return
+		}
 		// a read of a kind of data the session does not hold is a use, not an observation
 		if m.exists && (what == "GetTokenResponse" && !m.hasTok || what == "GetAuthorizationState" && !m.hasAuth) {
 			touch(what)
@@ -139,6 +143,11 @@ func c10Prop(c *sim.Case) {
 		}
 	}
 	write := func(what string, n int) {
+		for k := 0; k < 4 && m.exists && !m.hasTok && !m.hasAuth && m.judge(clk.Now()) == 0; k++ {
+			// an emptied session inside a tolerance band: no read can tell whether it is still there, so what this
+			// write would do to the creation time is unknowable - let time pass first
+			clk.Advance(2500 * time.Millisecond)
+		}
 		// resolve an "either" state first so that the write's effect on the creation time is determined
 		if m.exists && m.judge(clk.Now()) == 0 {
 			resolving = true
@@ -193,7 +202,22 @@ func c10Prop(c *sim.Case) {
 	}
 	n := 2 + sim.Pick(c, "nops", 14)
 	for i := 0; i < n; i++ {
-		switch sim.Weighted(c, "op", 10, 6, 4, 1, 1) {
+		switch sim.Weighted(c, "op", 10, 6, 4, 1, 1, 2) {
+		case 5:
+			// the login state is cleared (what a callback does before it stores the tokens): a use of the session that
+			// leaves its creation time alone, also when nothing is left in it. Only issued where the model is certain
+			// (a session emptied inside a tolerance band could not be told from a new one afterwards).
+			now := clk.Now()
+			if j := m.judge(now); m.exists && j == 1 {
+				err := st.ClearAuthorizationState(ctx, id)
+				c.Logf("t=+%v ClearAuthorizationState err=%v", now.Sub(time.Date(2030, 1, 1, 0, 0, 0, 0, time.UTC)), err)
+				if err != nil {
+					c.Violation(sig("clear-error"), "ClearAuthorizationState failed inside both limits: %v", err)
+				}
+				m.hasAuth = false
+				m.lo, m.hi = now, now
+				c.Class("cleared-login-state")
+			}
 		case 3:
 			// the sweep the service may run at any time: it removes what has expired and nothing else
 			if err := st.RemoveAllExpired(ctx); err != nil {
@@ -269,7 +293,7 @@ func TestC10(t *testing.T) {
 	r := sim.NewRun(t, "C10")
 	r.ShrinkTime = "2s" // real-time cases: a shrink attempt costs seconds
 	defer r.Finish()
-	r.Rule = "store tier: (absolute, idle) in {0,1,2,3,5,60,900,28800}^2 x {memory, Redis on miniredis} on a virtual clock, 0-27 other sessions created just before the judged one, sweeps (RemoveAllExpired) and operations on other sessions at drawn points; histories of writes (tokens, login state), reads (either kind; each read is also a use) and clock advances drawn 1.5 s / 0.5 s before and after the next limit, to either side of the instant at which the absolute limit becomes the nearer one, at random sub-second and multi-second offsets. Oracle: interval model of creation time and last use with 1 s tolerance (must not be honoured beyond a limit; must be honoured more than 1 s inside both; otherwise either). System tier: the assembled service (server.ExtAuthZFilter.Check with the real session-store factory wiring and real clock). Non-trivial = the history observed the session both alive and expired and (if an absolute limit is set) used it between creation and that limit; distinct = distinct (store, timeouts, trace)."
+	r.Rule = "store tier: (absolute, idle) in {0,1,2,3,5,60,900,28800}^2 x {memory, Redis on miniredis} on a virtual clock, 0-27 other sessions created just before the judged one, sweeps (RemoveAllExpired) and operations on other sessions at drawn points; histories of writes (tokens, login state), clearing of the login state, reads (either kind; each read is also a use) and clock advances drawn 1.5 s / 0.5 s before and after the next limit, to either side of the instant at which the absolute limit becomes the nearer one, at random sub-second and multi-second offsets. Oracle: interval model of creation time and last use with 1 s tolerance (must not be honoured beyond a limit; must be honoured more than 1 s inside both; otherwise either). System tier: the assembled service (server.ExtAuthZFilter.Check with the real session-store factory wiring and real clock). Non-trivial = the history observed the session both alive and expired and (if an absolute limit is set) used it between creation and that limit; distinct = distinct (store, timeouts, trace)."
 	r.Assumptions = []string{"one second of timestamp granularity is tolerated on either side of a limit", "miniredis follows the virtual clock through SetTime + FastForward"}
 	parts := map[string]func(*sim.Case){"store": c10Prop, "system": c10System}
 	if r.Replay != "" {
